@@ -1,7 +1,11 @@
 package sim
 
 import (
+	"math/big"
+
+	"github.com/ethereum/go-ethereum/beacon/engine"
 	"github.com/ethereum/go-ethereum/common"
+	ethtypes "github.com/ethereum/go-ethereum/core/types"
 	goattypes "github.com/goatnetwork/goat/x/goat/types"
 )
 
@@ -51,7 +55,9 @@ func (n *Node) BuildEthBlockTx(o EthBlockOpts) ([]byte, *goattypes.ExecutionPayl
 	if o.MutatePayload != nil {
 		o.MutatePayload(payload)
 		if o.Rehash {
-			d := goattypes.PayloadToExecutableData(payload)
+			// the harness's own field-by-field conversion, not the implementation's helper: a helper that
+			// loses or swaps a field must not be able to make the forged hash agree with its own loss
+			d := PayloadData(payload)
 			payload.BlockHash = ComputeBlockHash(d, common.BytesToHash(payload.BeaconRoot), payload.Requests).Bytes()
 		}
 	}
@@ -78,4 +84,25 @@ func (n *Node) BuildEthBlockTx(o EthBlockOpts) ([]byte, *goattypes.ExecutionPayl
 	}
 	tx, err := SignTx(n.TxCfg, n.Cfg.ChainID, signer, num, seq+o.SeqOffset, th, o.Memo, msg)
 	return tx, payload, err
+}
+
+// PayloadData is the reference conversion of a consensus-layer payload into the engine's form.
+func PayloadData(p *goattypes.ExecutionPayload) *engine.ExecutableData {
+	used, excess := p.BlobGasUsed, p.ExcessBlobGas
+	txs := make([][]byte, 0, len(p.Transactions))
+	for _, t := range p.Transactions {
+		txs = append(txs, append([]byte{}, t...))
+	}
+	var fee *big.Int
+	if !p.BaseFeePerGas.IsNil() {
+		fee = p.BaseFeePerGas.BigInt()
+	}
+	return &engine.ExecutableData{
+		ParentHash: common.BytesToHash(p.ParentHash), FeeRecipient: common.BytesToAddress(p.FeeRecipient),
+		StateRoot: common.BytesToHash(p.StateRoot), ReceiptsRoot: common.BytesToHash(p.ReceiptsRoot),
+		LogsBloom: p.LogsBloom, Random: common.BytesToHash(p.PrevRandao), Number: p.BlockNumber,
+		GasLimit: p.GasLimit, GasUsed: p.GasUsed, Timestamp: p.Timestamp, ExtraData: p.ExtraData,
+		BaseFeePerGas: fee, BlockHash: common.BytesToHash(p.BlockHash), Transactions: txs,
+		Withdrawals: []*ethtypes.Withdrawal{}, BlobGasUsed: &used, ExcessBlobGas: &excess,
+	}
 }
